@@ -20,6 +20,13 @@ impl ShaderStages {
     pub fn all() -> (r: ShaderStages) ensures r.bits == 7 { ShaderStages { bits: 7 } }
     pub fn contains(&self, other: ShaderStages) -> (r: bool) ensures r == (self.bits & other.bits == other.bits) { self.bits & other.bits == other.bits }
     pub fn union(self, other: ShaderStages) -> (r: ShaderStages) ensures r.bits == self.bits | other.bits { ShaderStages { bits: self.bits | other.bits } }
+    // the rest of the bitflags surface a change may reach for (conformance-tested with the others against wgpu-types)
+    pub fn empty() -> (r: ShaderStages) ensures r.bits == 0 { ShaderStages { bits: 0 } }
+    pub fn bits(&self) -> (r: u32) ensures r == self.bits { self.bits }
+    pub fn is_empty(&self) -> (r: bool) ensures r == (self.bits == 0) { self.bits == 0 }
+    pub fn intersection(self, other: ShaderStages) -> (r: ShaderStages) ensures r.bits == self.bits & other.bits { ShaderStages { bits: self.bits & other.bits } }
+    pub fn difference(self, other: ShaderStages) -> (r: ShaderStages) ensures r.bits == self.bits & !other.bits { ShaderStages { bits: self.bits & !other.bits } }
+    pub fn intersects(&self, other: ShaderStages) -> (r: bool) ensures r == (self.bits & other.bits != 0) { self.bits & other.bits != 0 }
 }
 impl vstd::std_specs::cmp::PartialEqSpecImpl for ShaderStages {
     open spec fn obeys_eq_spec() -> bool { true }
